@@ -76,6 +76,16 @@ def check(run):
     sbb, callee, args = sorts[0]
     m = re.search(r'(sort_by_key|sort_by_cached_key|sort_unstable_by_key|sort_by|sort_unstable_by|sort|sort_unstable)::<(.*)>$', callee)
     kind = m.group(1) if m else None
+    unstable = kind in ('sort_unstable_by_key', 'sort_unstable_by', 'sort_unstable')
+    if unstable:
+        # an unstable sort may permute diagnostics with equal keys according to the input permutation, which is hash-order dependent;
+        # two different diagnostics CAN share a start position (e.g. a raw `Map` argument: non-generic warning + missing direction)
+        rep = native_ties()
+        run.violated('the final sort is stable (diagnostics that share a start position keep one order)', 'M', 'unstable-final-sort',
+                     {'sort_call': callee[:120], 'native': rep}, rep.get('distinct', 1) > 1, detail='the final sort is `%s`: equal keys are ordered by the hash-dependent input permutation' % kind)
+        if kind != 'sort_unstable_by_key':
+            return
+        kind = 'sort_by_key'
     if kind not in ('sort_by_key', 'sort_by_cached_key'):
         run.inconclusive('final sort shape', 'M', 'unsupported sort form %s (supported: sort_by_key / sort_by_cached_key with a projection or tuple key)' % kind)
         return
@@ -172,3 +182,12 @@ def native_two_orders():
     except Exception:
         pass
     return {'distinct': r.get('distinct', 0), 'out_of_order': ooo, 'crash': r.get('crash')}
+
+
+def native_ties():
+    """> 20 diagnostics, several pairs sharing a start position, several hash-ordered warnings: validate repeatedly."""
+    imports = ''.join('import q.U%d;\n' % k for k in range(14))
+    methods = ''.join('  void m%d(Map a%d);\n' % (k, k) for k in range(12))
+    files = {'a.aidl': 'package p;\n' + imports + 'interface I {\n' + methods + '}\n'}
+    r = replay.determinism(files, 80)
+    return {'distinct': r.get('distinct', 0), 'crash': r.get('crash')}
